@@ -53,7 +53,12 @@ pub fn roots(prop: &str, tier: &str) -> Vec<Scenario> {
     // goal roots are drawn by the goal sampler here, so the two RRT-Connect root variants coincide
     out.retain(|s| s.goal_root == 0);
     if tier == "quick" {
-        // one step size per (space, world, planner) is enough for the quick tier
+        // one step size per (space, world, planner) is enough for the quick tier: the largest radius
+        // for PRM (a roadmap with a tiny radius answers nothing), the smallest step for the trees
+        out.sort_by(|a, b| {
+            let pref = |s: &Scenario| if s.params.pk == Pk::Prm { -s.params.step } else { s.params.step };
+            pref(a).partial_cmp(&pref(b)).unwrap_or(std::cmp::Ordering::Equal)
+        });
         let mut seen = std::collections::HashSet::new();
         out.retain(|s| seen.insert((s.kit, s.world.name.clone(), s.params.pk, (s.params.radius / s.params.step * 100.0) as i64, format!("{:?}", s.spec))));
     }
@@ -138,6 +143,25 @@ fn one_run<K: Kit>(prop: &'static str, tier: &'static str, idx: usize, sc0: &Sce
                 "C04" => crate::props_paths::c04::<K>(tier, idx, &sc, &[], ci, &rig, path, rep),
                 "C05" => crate::props_paths::c05::<K>(tier, idx, &sc, &[], ci, &rig, path, rep),
                 _ => {}
+            }
+        }
+        // C04 x PRM: milestones come straight from the sampler. Any milestone can end a returned path
+        // (ask for it): every milestone outside the bounds model is made the goal of a replaced problem
+        // and the returned path is judged like any other.
+        if prop == "C04" && pk == Pk::Prm {
+            if let crate::drv::Snap::Roadmap(g) = &post {
+                let outside: Vec<K::S> = g.iter().map(|(m, _)| m.clone()).filter(|m| !crate::oracles::in_bounds_ref(&rig, m)).take(3).collect();
+                rep.count("deep_prm_milestones_inspected", g.len() as u64);
+                for m in outside {
+                    let dist = crate::scen::dist_fn::<K>(&sc.spec);
+                    let goal = std::sync::Arc::new(crate::seams::HGoal::<K>::new(vec![(m.clone(), 1e-9)], vec![rig.start.clone()], dist));
+                    let pd = std::sync::Arc::new(crate::drv::Pd::<K> { space: rig.space.clone(), start_states: vec![rig.start.clone()], goal });
+                    rig.drv.set_problem_definition(pd);
+                    if let Ok(Ok(path)) = guarded(|| rig.drv.solve(LONG)) {
+                        rep.count("deep_paths", 1);
+                        crate::props_paths::c04::<K>(tier, idx, &sc, &[], ci + 1, &rig, &path, rep);
+                    }
+                }
             }
         }
         if rep.viol_counts.values().sum::<u64>() > before {
